@@ -271,6 +271,9 @@ func TestUDPRelayBurst(t *testing.T) {
 			switch atyp {
 			case rIPv4:
 				addr = []byte{10, byte(i + 1), rapid.Byte().Draw(t, "b"), 7}
+				if rapid.IntRange(0, 4).Draw(t, "virtualDNSAddress") == 0 {
+					addr = []byte{10, 0, 0, 1} // the address the relay substitutes for DNS queries; this is not one (port != 53)
+				}
 			case rIPv6:
 				addr = append([]byte{0x20, 0x01, 0x0d, 0xb8, byte(i + 1)}, rapid.SliceOfN(rapid.Byte(), 11, 11).Draw(t, "v6")...)
 			default:
